@@ -161,7 +161,9 @@ def check(case):
         fail("C08/y-coord", {"max_diff": float(numpy.abs(yc - want).max())})
     if not probs and nguard_cells == expected_guards:
         th = nc["theta_ylow"]
-        has_core = t["ixseps1"] > 0 and (t["jyseps2_2"] > t["jyseps1_1"])
+        # an isolated X-point (TORPEX) has no core cells at all
+        ncore = bm.n_core_cells(t)
+        has_core = t["ixseps1"] > 0 and ncore > 0
         if has_core and (topo != "noX" or t["ixseps1"] >= nx):
             first = bm.file_y(t, t["jyseps1_1"] + 1)
             j22 = min(t["jyseps2_2"], t["ny"] - 1)
